@@ -69,6 +69,11 @@ func throughPointer(addr ssa.Value) bool {
 func storesToField(p *Prog, typ, field string) []*StoreSite { return p.Stores(typ, field) }
 
 func runC05(c *Ctx) {
+	if !importing {
+		// the link keys must be a function of the ntor secret (a KEY_SEED computable from public values lets
+		// a middlebox forge frames): C08's ntor terms
+		importObls(c, "C08", runC08, "X08", func(k string) bool { return containsAny(k, "term:common/ntor") })
+	}
 	p := c.P
 	sharedDigestRule(c, p, "R7", "transports/obfs4", "transports/obfs4/framing")
 	// nonce sequencing ("a frame cannot be replayed, reordered or duplicated") rests on the nonce being
